@@ -23,6 +23,8 @@ func init() {
 		Run: runC19,
 	})
 	addMutants("C19",
+		mutant{"async reader keeps reading after any decode error", "codec.go",
+			"\titem, err := c.codec.Decode(c.src)\n\tif errors.Is(err, sonicerrors.ErrNeedMore) {\n\t\tc.src.AsyncReadFrom(", "\titem, err := c.codec.Decode(c.src)\n\tif err != nil {\n\t\tc.src.AsyncReadFrom(", "C19-R3"},
 		mutant{"WriteNext drops the unsent rest after a failed write", "codec.go",
 			"\t\tnn, err = c.dst.WriteTo(c.stream)\n\t\tn = int(nn)\n", "\t\tnn, err = c.dst.WriteTo(c.stream)\n\t\tn = int(nn)\n\t\tif err != nil {\n\t\t\tc.dst.Consume(c.dst.ReadLen())\n\t\t}\n", "C19-R4"},
 		mutant{"prefix consumed before the payload is complete", "codec/frame/frame.go",
@@ -510,6 +512,64 @@ func runC19(c *Ctx) {
 				}
 				c.check(onlyNeedMore, fn, "read only on need-more", rd.Pos(), "the transport is read only after the decoder reported ErrNeedMore", "ReadNext reads from the transport after any decode error: a rejected item (length over the limit, malformed input) is not reported, the call keeps reading and buffering hostile input")
 			}
+		}
+	}
+
+	// the asynchronous twin: an asynchronous transport read is started only after the decoder reported ErrNeedMore (at the
+	// call itself, or at every call site of the unexported helper that starts it)
+	{
+		needMore := func(b *ssa.BasicBlock) bool {
+			for _, l := range guardsOf(b) {
+				if call, ok := l.Cond.(*ssa.Call); ok && call.Call.StaticCallee() != nil && call.Call.StaticCallee().String() == "errors.Is" && l.Pos {
+					if isLoadOfGlobal(call.Call.Args[1], errNeedMore) {
+						return true
+					}
+				}
+				if op, x, y, ok := l.cmp(); ok && op == token.EQL && (isLoadOfGlobal(x, errNeedMore) || isLoadOfGlobal(y, errNeedMore)) {
+					return true
+				}
+			}
+			return false
+		}
+		var siteOK func(in ssa.Instruction, depth int) bool
+		siteOK = func(in ssa.Instruction, depth int) bool {
+			if needMore(in.Block()) {
+				return true
+			}
+			top := in.Parent()
+			for top.Parent() != nil {
+				top = top.Parent()
+			}
+			if depth == 0 || top.Object() == nil || top.Object().Exported() {
+				return false
+			}
+			sites := p.callers(top)
+			if len(sites) == 0 {
+				return false
+			}
+			for _, s := range sites {
+				if !siteOK(s.(ssa.Instruction), depth-1) {
+					return false
+				}
+			}
+			return true
+		}
+		n := 0
+		for _, fn := range p.Funcs {
+			top := fn
+			for top.Parent() != nil {
+				top = top.Parent()
+			}
+			if pk, tn := recvTypeName(top); pk != modPath || tn != "CodecConn" {
+				continue
+			}
+			for _, rd := range callsToFn(fn, bb("AsyncReadFrom")) {
+				n++
+				c.check(siteOK(rd.(ssa.Instruction), 2), fn, "async read only on need-more", rd.Pos(), "the transport is read only after the decoder reported ErrNeedMore", "an asynchronous transport read is started after a decode error other than ErrNeedMore (or without decoding first): a rejected item is not reported to the callback, the connection keeps reading and buffering hostile input")
+			}
+		}
+		if n == 0 {
+			c.bad(p.Method("sonic", "CodecConn", "AsyncReadNext"), "async read only on need-more", token.NoPos, "no asynchronous transport read found in CodecConn (anchor moved)")
 		}
 	}
 
